@@ -125,15 +125,44 @@ class _Guarded(object):
             signal.setitimer(signal.ITIMER_REAL, 0)
 
 
-def pmap(func, items, limit=20.0):
-    """Parallel map over items with fork workers (implementation side).  Each item runs under an
-    alarm of `limit` seconds; an item that does not return yields the HANG marker."""
+class HangResult(list):
+    """What pmap returns for an item that did not come back: an EMPTY list (so that callers that iterate over the
+    violations of an item do not crash) that compares equal to the HANG marker (so that callers that test for it still do)."""
+
+    def __eq__(self, other):
+        return other == 'HANG' or isinstance(other, HangResult)
+
+    def __ne__(self, other):
+        return not self.__eq__(other)
+
+    __hash__ = None
+
+
+UNRESOLVED_HANGS = []
+
+
+def pmap(func, items, limit=20.0, confirm=True):
+    """Parallel map over items with fork workers (implementation side).  Each item runs under an alarm of `limit` seconds.
+    An item that does not return is run again alone, in this process, with a generous limit (a loaded pool or an expensive
+    exact computation of the harness is not a hang); if it still does not return it yields a HangResult and is logged in
+    UNRESOLVED_HANGS - run_property reports every logged hang that the property module did not handle itself."""
     items = list(items)
     g = _Guarded(func, limit)
     if len(items) < 64:
-        return [g(x) for x in items]
-    with multiprocessing.get_context('fork').Pool(NCPU) as pool:
-        return pool.map(g, items, chunksize=max(1, min(256, len(items) // (NCPU * 8))))
+        res = [g(x) for x in items]
+    else:
+        with multiprocessing.get_context('fork').Pool(NCPU) as pool:
+            res = pool.map(g, items, chunksize=max(1, min(256, len(items) // (NCPU * 8))))
+    for i, r in enumerate(res):
+        if isinstance(r, str) and r == HANG:
+            if confirm:
+                r = _Guarded(func, max(6 * limit, 90.0))(items[i])
+            if isinstance(r, str) and r == HANG:
+                if confirm:
+                    UNRESOLVED_HANGS.append(repr(items[i])[:400])
+                r = HangResult()
+            res[i] = r
+    return res
 
 
 def confirm_hang(func, item, limit=12.0):
@@ -613,6 +642,10 @@ def run_property(mod, tier, seed, scratch):
         notes.append('model runner could not be built: ' + rlog[-500:])
     # ---- correspondence + oracle
     res = mod.explore(ctx)
+    # ---- evaluations that never returned and that the property module did not account for itself
+    for h in UNRESOLVED_HANGS[:20]:
+        res.violate({'hang': h}, 'an evaluation did not return within the time limit (run again alone with 6x the limit)', None,
+                    'returns', 'no return: ' + h[:200])
     # ---- known findings
     known = [e for e in load_known(pid) if e.get('status') == 'known']
     known_hit = {}
